@@ -40,11 +40,18 @@ def is_data(f):
 
 
 def stmt_targets(st):
-    """function indices referenced by a statement"""
+    """function indices referenced by a statement (the statement's own target first)"""
     if st[0] in ("call", "ho"):
         return [st[1]]
     if st[0] == "keep":
         return [st[2]]
+    return []
+
+
+def inline_args(st):
+    """argument expressions that are themselves calls: ['icall', fi, form] / ['iload', path] (plain calls only)"""
+    if st[0] == "call" and len(st) > 3:
+        return [a for a in st[3] if a[0] in ("icall", "iload")]
     return []
 
 
@@ -93,7 +100,7 @@ def import_line(prog, here_mod, fi, form):
     raise ValueError(form)
 
 
-def render_args(prog, callee, args, multiline=False):
+def render_args(prog, callee, args, multiline=False, here_mod=None):
     """args aligned with callee params; each ['lit', enc, 'pos'|'kw'] | ['loc', k] | ['par', name] | ['omit']"""
     out = []
     kw_mode = False
@@ -113,6 +120,10 @@ def render_args(prog, callee, args, multiline=False):
             text = a[1]
             if len(a) > 2 and a[2] == "kw":
                 kw_mode = True
+        elif a[0] == "icall":
+            text = call_expr(prog, here_mod, a[1], a[2]) + "()"
+        elif a[0] == "iload":
+            text = f"dds.load({a[1]!r})"
         else:
             raise ValueError(a)
         out.append(f"{pname}={text}" if kw_mode else text)
@@ -127,7 +138,7 @@ def render_stmt(prog, here_mod, k, st, in_class=False):
         return [f"r{k} = xu.e{st[1]}()"]
     if kind == "call":
         callee = prog["funcs"][st[1]]
-        args = render_args(prog, callee, st[3] if len(st) > 3 else [])
+        args = render_args(prog, callee, st[3] if len(st) > 3 else [], here_mod=here_mod)
         return [f"r{k} = {call_expr(prog, here_mod, st[1], st[2])}({', '.join(args)})"]
     if kind == "ho":
         return [f"r{k} = xu.call0({call_expr(prog, here_mod, st[1], st[2])})"]
@@ -202,6 +213,11 @@ def render_module(prog, mi):
                 il = import_line(prog, mi, fi, form)
                 if il and il not in imports:
                     imports.append(il)
+            for a in inline_args(st):
+                if a[0] == "icall":
+                    il = import_line(prog, mi, a[1], a[2])
+                    if il and il not in imports:
+                        imports.append(il)
             if st[0] == "cls" and prog["classes"][st[1]]["mod"] != mi:
                 c = prog["classes"][st[1]]
                 il = f"from {pkg}.{prog['mods'][c['mod']]} import {c['name']}"
@@ -335,7 +351,19 @@ class Interp(object):
                 out.append(locs[a[1]])
             elif a[0] == "par":
                 out.append(f_here_params[a[1]])
+            elif a[0] == "icall":
+                callee = self.prog["funcs"][a[1]]
+                out.append(self.call(a[1], [NO] * len(callee["params"])))
+            elif a[0] == "iload":
+                out.append(self.load(a[1]))
         return out
+
+    def load(self, p):
+        if p in self.kept:
+            return self.kept[p]
+        if p in self.committed:
+            return self.committed[p]
+        raise MissingPath(p)
 
     def run_body(self, body, params):
         locs = []
@@ -368,13 +396,7 @@ class Interp(object):
                 self.kept_order.append(st[1])
                 locs.append(v)
             elif kind == "load":
-                p = st[1]
-                if p in self.kept:
-                    locs.append(self.kept[p])
-                elif p in self.committed:
-                    locs.append(self.committed[p])
-                else:
-                    raise MissingPath(p)
+                locs.append(self.load(st[1]))
             elif kind == "cls":
                 c = self.prog["classes"][st[1]]
                 self.executed.append(c["name"] + ".m")
@@ -437,6 +459,11 @@ def closure(prog, fi, _seen=None):
             elif k == "ext":
                 out["ext"] = True
             elif k in ("call", "ho"):
+                for a in inline_args(st):
+                    if a[0] == "icall":
+                        visit_f(a[1])
+                    else:
+                        out["loads"].add(a[1])
                 visit_f(st[1])
             elif k == "keep":
                 visit_f(st[2])
@@ -476,6 +503,9 @@ def kept_sites(prog, root):
         for st in body:
             k = st[0]
             if k in ("call", "ho"):
+                for a in inline_args(st):
+                    if a[0] == "icall":
+                        visit_f(a[1])
                 visit_f(st[1])
             elif k == "keep":
                 ctxfree = all(a[0] in ("lit", "omit") for a in st[4])
@@ -577,6 +607,9 @@ def sim_log(prog, root, may_exec):
         for st in body:
             k = st[0]
             if k in ("call", "ho"):
+                for a in inline_args(st):
+                    if a[0] == "icall":
+                        run_f(a[1])
                 run_f(st[1])
             elif k == "keep":
                 if may_exec(st[1]):
